@@ -307,3 +307,58 @@ func c19Transport(x *X) {
 func init() {
 	register(&Scenario{Prop: "C19", Name: "c19/transport-housekeeping-after-abandon", Quick: []Bound{{1, 0}, {2, 0}}, Thorough: []Bound{{3, 0}}, Body: c19Transport, MaxSteps: 200000, BudgetQ: 20})
 }
+
+// many abandoned calls on one connection (the server answers none of them before the end): each
+// CallWithContext returns promptly with its context's error, however many were abandoned before
+// it; a live call next to them works; finally the late answers harm nobody.  Default schedule.
+func c19ManyAbandoned(x *X) {
+	n := []int{5, 17, 40, 130}[x.Choose(4)]
+	pipelined := x.Choose(2) == 1
+	kind := x.Choose(2) // cancellation / deadline
+	cerr := context.Canceled
+	if kind == 1 {
+		cerr = context.DeadlineExceeded
+	}
+	f := newFixture(srvOpts{bufSize: 64}, cliOpts{bufSize: 64, pipelining: pipelined})
+	for i := 0; i < n; i++ {
+		c := newUcall(byte(i+1), fGate, 9+i%20, formCallCtx)
+		c.hctx = newCtx(nil)
+		c.spawn(f.conn)
+		vs.Quiesce()
+		c.hctx.cancel(cerr)
+		vs.Quiesce()
+		if !c.ret {
+			x.Fail("C19/call-with-context-hangs", "abandoned call number %d on one connection (none of the earlier ones has been answered): CallWithContext did not return although its context is done", i+1)
+			break
+		}
+		if c.err != cerr {
+			x.Fail("C19/wrong-error", "abandoned call number %d returned %v, want %v", i+1, c.err, cerr)
+		}
+	}
+	live := newUcall(0xF0, 0, 30, formCall)
+	live.spawn(f.conn)
+	vs.Quiesce()
+	if !live.ret || live.err != nil || !eqBytes(live.reply, live.want()) {
+		x.Fail("C19/sibling-disturbed", "a call next to %d abandoned, unanswered calls: returned=%v err=%v", n, live.ret, live.err)
+	}
+	for i := 0; i < n; i++ {
+		f.w.open(byte(i + 1))
+	}
+	vs.Quiesce()
+	later := newUcall(0xF1, 0, 44, formCall)
+	later.spawn(f.conn)
+	vs.Quiesce()
+	if !later.ret || later.err != nil || !eqBytes(later.reply, later.want()) {
+		x.Fail("C19/later-call-failed", "a call after the late answers to %d abandoned calls: returned=%v err=%v", n, later.ret, later.err)
+	}
+	x.Outcome("n=%d pipelined=%v kind=%d", n, pipelined, kind)
+	f.conn.Close()
+	vs.Quiesce()
+	for _, t := range blockedThreads(nil) {
+		x.Fail("C19/thread-left-behind", "after Conn.Close following %d abandoned calls: %s", n, t)
+	}
+}
+
+func init() {
+	register(&Scenario{Prop: "C19", Name: "c19/many-abandoned", Quick: []Bound{{0, 0}}, Thorough: []Bound{{1, 0}}, Body: c19ManyAbandoned, MaxSteps: 1000000, BudgetQ: 15, BudgetT: 150, MinHB: 1})
+}
